@@ -52,7 +52,10 @@ def run(ctx):
     for si in dsites:
         check_site_args(rep, facts, si, True)
         # R06.5: verdict not dropped
-        if si.verdict is None:
+        if si.verdict is None and len(si.verdict_cands) > 1:
+            # the result is looked at by several branches: Ok is returned only on paths whose verdict is Ok (decided per path)
+            c04.effects_by_paths(rep, facts, si, 'R06.5', 'open', as_rule='R06.5')
+        elif si.verdict is None:
             rep.bad('R06.5', si.key, 'verdict-switch', '%d candidate branch(es) on the AEAD result' % len(si.verdict_cands),
                     'exactly one branch inspects the AEAD result', where(si.a, si.point))
         else:
